@@ -37,10 +37,10 @@ def dtype_model(cls, dt):
 
 
 BAD = {
-    "sample_rate": ["plain_number", "wrong_unit", "array", "array1", "zero", "negative", "nan", "none"],
+    "sample_rate": ["plain_number", "wrong_unit", "array", "array1", "zero", "negative", "nan", "none", "complex"],
     "start_time": ["float_mjd", "array_time", "junk_string", "quantity"],
     "center_freq": ["plain_number", "wrong_unit", "array", "array1", "none"],
-    "chan_bw": ["plain_number", "wrong_unit", "array", "array1", "array11", "zero", "negative", "none"],
+    "chan_bw": ["plain_number", "wrong_unit", "array", "array1", "array11", "zero", "negative", "none", "complex"],
     "freq_align": ["middle", "none", "number", "upper", "nparray0", "nparray1", "list"],
     "pol_type": ["elliptical", "none", "number", "Linear", "nparray0", "nparray1"],
     "meta": ["number", "string", "list_of_scalars"],
@@ -51,7 +51,8 @@ def bad_value(arg, kind):
     if arg in ("sample_rate", "center_freq", "chan_bw"):
         return {"plain_number": 5.0, "wrong_unit": 5.0 * u.s, "array": np.array([1.0, 2.0]) * u.Hz, "zero": 0.0 * u.Hz, "negative": -3.0 * u.kHz,
                 "array1": np.array([2.5]) * u.kHz, "array11": np.array([[1.0]]) * u.MHz,  # one element is still not a scalar
-                "nan": float("nan") * u.Hz, "none": None}[kind]
+                "nan": float("nan") * u.Hz, "none": None,
+                "complex": (3 + 2j) * u.kHz}[kind]  # "positive" says nothing about a number with an imaginary part (NumPy would order it by its real part)
     if arg == "start_time":
         return {"float_mjd": 59867.2442234, "array_time": Time([58000.0, 58001.0], format="mjd"), "junk_string": "not a time", "quantity": 5 * u.s}[kind]
     if arg == "freq_align":
